@@ -150,7 +150,7 @@ Theorem C14_progress_kept_one_commit : forall orc s id do_ack r0 i t st tk c,
   find_row s id = Some r0 -> q_msg r0 = MRunTask i t -> (q_attempts r0 < queue_max_attempts)%Z ->
   mem_nat id (w_processed s) = false ->
   get_stage s i = Some st -> nth_error (s_tasks st) t = Some tk -> t_status tk = RUNNING ->
-  w_canceled s = false -> is_complete (w_status s) = false ->
+  w_canceled s = false -> is_complete (w_status s) = false -> status_eqb (w_status s) PAUSED = false ->
   kept_ctx (orc i t (count_execs s i t)) = Some c ->
   (forall c', orc i t (count_execs s i t) = RTransient c' -> retry_guard (q_attempts r0 + 1) default_max_attempts = true) ->
   exists one : commit,
@@ -186,7 +186,7 @@ Theorem C14_progress_kept_across_cut : forall orc s id r0 i t st tk c k,
   find_row s id = Some r0 -> q_msg r0 = MRunTask i t -> (q_attempts r0 < queue_max_attempts)%Z ->
   mem_nat id (w_processed s) = false ->
   get_stage s i = Some st -> nth_error (s_tasks st) t = Some tk -> t_status tk = RUNNING ->
-  w_canceled s = false -> is_complete (w_status s) = false ->
+  w_canceled s = false -> is_complete (w_status s) = false -> status_eqb (w_status s) PAUSED = false ->
   kept_ctx (orc i t (count_execs s i t)) = Some c ->
   (forall c', orc i t (count_execs s i t) = RTransient c' -> retry_guard (q_attempts r0 + 1) default_max_attempts = true) ->
   Forall (fun r => q_id r < w_next s) (w_queue s) ->
